@@ -16,7 +16,7 @@ func init() {
 		decided: "R1 every index, slice, division, unchecked type assertion and explicit panic in code reachable from any in-repository directive's setup function or parsing callback is shown safe; " +
 			"R2 every loop in that code consumes a token per cycle or has a verified ranking function, and every lock it takes is released on all exits; " +
 			"R3 validation and a real start run exactly the same setup calls: justValidate guards only the throw-away instance and the parsing callbacks; " +
-			"R4 exported helper functions of the setup path that dereference a pointer parameter either test it for nil first or are only ever given freshly allocated values. Since round 4: R6 the error sources of every registered parsing callback (run only on a real start) are the confirmed environment failures. Since round 5: R3 along the executeDirectives traces (validation and start make the same setup calls).",
+			"R4 exported helper functions of the setup path that dereference a pointer parameter either test it for nil first or are only ever given freshly allocated values. Since round 4: R6 the error sources of every registered parsing callback (run only on a real start) are the confirmed environment failures. Since round 5: R3 along the executeDirectives traces (validation and start make the same setup calls). Since round 7: R8 every ticker period is positive by construction (a configured zero or negative interval must be refused when parsed).",
 		notDecided: "acceptance/rejection of every spelling (semantic validation); OS effects of valid configurations; nil dereferences other than R4's pattern; panics inside library callees.",
 	})
 }
